@@ -421,7 +421,7 @@ def run_ddsmt(workdir,
     try:
         with open(outfile, 'rb') as f:
             r.out_bytes = f.read()
-    except FileNotFoundError:
+    except (FileNotFoundError, IsADirectoryError, NotADirectoryError):
         r.out_bytes = None
     r.cmdlog = read_jsonl(cmdlog)
     r.events = read_jsonl(events) if events else []
